@@ -275,3 +275,73 @@ Theorem C07_extract_back_example :
 Proof. exact extract_back_example. Qed.
 Print Assumptions C07_extract_back_example.
 
+
+(* ---- the same along MULTI-VERSION histories under the identity converter (Proofs/MultiVersion.v,
+   corollaries of the transparency theorem of C20): every operation of the history at its own
+   version label (one schema behind every label, any visiting order of the versions), the
+   last operation at an arbitrary label; updates inside the history submit neither empty
+   lists nor duplicate members (the restriction of Proofs/Transparent.v). ---- *)
+From Coq Require Import List ZArith String Bool Arith Lia Permutation.
+From SMD Require Import Model.Value Model.Order Model.PathElem Model.PathSet Model.Schema Model.Walk
+  Model.Validate Model.FieldSet Model.Remove Model.Merge Model.Compare Model.Matcher Model.Reconcile
+  Model.Updater
+  Spec.PathsAsSets Spec.RefValid Spec.Resolve Spec.Agree Spec.RefDiff Spec.Examples
+  Proofs.OrderLaws Proofs.PathSetLaws Proofs.SchemaOk Proofs.FieldSetBase Proofs.FieldSetPaths
+  Proofs.FieldSetWf Proofs.FieldSetLaws Proofs.RemoveAbsent Proofs.RemoveWf Proofs.ResolveLaws
+  Proofs.UpdaterLaws Proofs.UpdaterLaws2 Proofs.MergeLaws Proofs.MergeAgree
+  Proofs.RemoveFrame Proofs.EnLaws Proofs.NodeSet Proofs.KeyFields Proofs.VeqbResolve
+  Proofs.SetCheckers Proofs.ApplyEffect Proofs.Visible Proofs.ApplyInv Proofs.History
+  Proofs.TransparentPrune Proofs.TransparentCore Proofs.TransparentStep Proofs.Transparent
+  Proofs.Reapply Proofs.ConflictsApply Proofs.NoOtherFailure Proofs.RecordsHistory
+  Proofs.MultiVersionBase.
+From SMD Require Proofs.ApplyPrune.
+From SMD Require Import Proofs.MultiVersion.
+Theorem C07_reapply_multi_version :
+  forall (c : config) (R : typeref -> Prop) (ver : string) (ops : list vhop)
+           (v v2 mgr : string) (cfg : value) (force : bool) (o : option tv) 
+           (mf' : managed),
+         setting_ok c R ver ->
+         one_schema c ver ->
+         order_perm c ->
+         Forall (vop_ok c ver) ops ->
+         op_ok c ver (HApply mgr cfg force) ->
+         cfg_return_input_on_noop c = false ->
+         apply_op c (fst (vrun c ver ops)) (v, cfg) v (snd (vrun c ver ops)) mgr force =
+         UOk (o, mf') ->
+         let st' := match o with
+                    | Some t => t
+                    | None => fst (vrun c ver ops)
+                    end in
+         exists mf'' : managed,
+           apply_op c st' (v2, cfg) v2 mf' mgr false = UOk (None, mf'') /\
+           same_records_upto_labels mf' mf'' /\
+           (forall r'' : mrec, mf_get mgr mf'' = Some r'' -> mr_ver r'' = v2) /\
+           (forall (m : string) (r'' : mrec),
+            m <> mgr ->
+            mf_get m mf'' = Some r'' ->
+            exists r' : mrec, mf_get m mf' = Some r' /\ mr_ver r'' = mr_ver r') /\
+           (v2 = v -> same_records mf' mf'').
+Proof. exact mv_reapply_is_a_fixed_point. Qed.
+Print Assumptions C07_reapply_multi_version.
+
+Theorem C07_reapply_multi_version_histories :
+  forall (c : config) (R : typeref -> Prop) (ver : string) (ops : list vhop)
+           (v v2 mgr : string) (cfg : value) (force : bool) (o : option tv) 
+           (mf' : managed),
+         setting_ok c R ver ->
+         one_schema c ver ->
+         order_perm c ->
+         Forall (vop_ok c ver) ops ->
+         op_ok c ver (HApply mgr cfg force) ->
+         apply_op c (fst (vrun c ver ops)) (v, cfg) v (snd (vrun c ver ops)) mgr force =
+         UOk (o, mf') ->
+         snd
+           (fst
+              (vrun c ver (ops ++ (v, HApply mgr cfg force) :: (v2, HApply mgr cfg false) :: nil))) =
+         snd (fst (vrun c ver (ops ++ (v, HApply mgr cfg force) :: nil))) /\
+         same_records_upto_labels (snd (vrun c ver (ops ++ (v, HApply mgr cfg force) :: nil)))
+           (snd
+              (vrun c ver (ops ++ (v, HApply mgr cfg force) :: (v2, HApply mgr cfg false) :: nil))).
+Proof. exact mv_reapply_history_fixed_point. Qed.
+Print Assumptions C07_reapply_multi_version_histories.
+
